@@ -93,6 +93,14 @@ pub fn vx_names_retain_below(names: &mut HashMap<String, u16>, start_size: usize
         forall|k: String| #[trigger] final(names)@.contains_key(k) ==> final(names)@[k] == old(names)@[k],
 { unimplemented!() }
 
+// the same with `<=` (so that this one-character variant is judged by the verifier instead of being unsupported)
+#[verifier::external_body]
+pub fn vx_names_retain_below_eq(names: &mut HashMap<String, u16>, start_size: usize)
+    ensures
+        forall|k: String| #[trigger] final(names)@.contains_key(k) <==> (old(names)@.contains_key(k) && (old(names)@[k] as usize) <= start_size),
+        forall|k: String| #[trigger] final(names)@.contains_key(k) ==> final(names)@[k] == old(names)@[k],
+{ unimplemented!() }
+
 // R8 named havoc (the result of `packet_list.into_iter().map(|p| p.data).collect()` in to_data_on_wire)
 #[verifier::external_body]
 pub fn vx_any<T>() -> (r: T) { unimplemented!() }
